@@ -638,7 +638,8 @@ def m_hexlify(I, args, kw):
 @model_for(_time.time)
 def m_time(I, args, kw):
     t = fresh("time")
-    I.path.assume(t >= 0)
+    I.path.session.assumptions.add("time.time() returns a value in [0, 2**62)")
+    I.path.assume(z3.And(t >= 0, t < 2 ** 62))
     r = Opaque('float', 'time.time()')
     r.fields['int_value'] = SInt(t)
     return r
@@ -937,3 +938,13 @@ def lookup_model(f):
 
 
 M.lookup_model = lookup_model
+
+
+@model_for(_time.gmtime, _time.localtime)
+def m_gmtime(I, args, kw):
+    return Opaque('object', 'struct_time', taint_of(list(args)))
+
+
+@model_for(_time.strftime, _time.asctime, _time.ctime)
+def m_strftime(I, args, kw):
+    return Opaque('str', 'formatted-time', taint_of(list(args)), {'nonempty'})
